@@ -67,13 +67,38 @@ func (r *SimReader) fire(k string) {
 	}
 }
 
-func (r *SimReader) errFor(id int) *SimErr {
+// sentinelErrs are well-known error values a real reader can fail with (a
+// decompressor on a truncated file, a closed pipe); every fifth and every
+// seventh fault id uses one of them instead of a SimErr, so that special
+// treatment of particular error values inside the library is exercised.
+var sentinelErrs = []error{io.ErrUnexpectedEOF, io.ErrClosedPipe, io.ErrNoProgress}
+
+func (r *SimReader) errFor(id int) error {
+	switch {
+	case id%5 == 3:
+		return io.ErrUnexpectedEOF
+	case id%7 == 5:
+		return sentinelErrs[1+id%2]
+	}
 	e := r.errs[id]
 	if e == nil {
 		e = &SimErr{Who: "reader", ID: id}
 		r.errs[id] = e
 	}
 	return e
+}
+
+// isReaderFault reports whether err is one of the errors a SimReader fails with.
+func isReaderFault(err error) bool {
+	if _, ok := err.(*SimErr); ok {
+		return true
+	}
+	for _, e := range sentinelErrs {
+		if err == e {
+			return true
+		}
+	}
+	return false
 }
 
 // HandedOut is the number of stream bytes the reader has delivered so far.
